@@ -33,6 +33,9 @@ def clist(items):
     return "[" + "; ".join(items) + "]"
 
 
+# pl15: see expr(); part of the trusted base
+THREADING_STUBS = {"Event": "SimEvent", "Thread": "SimThread"}
+
 BINOPS = {ast.Add: "OAdd", ast.Sub: "OSub", ast.Mult: "OMul", ast.FloorDiv: "OFloorDiv",
           ast.Mod: "OMod", ast.LShift: "OShl", ast.RShift: "OShr", ast.BitAnd: "OBitAnd",
           ast.BitOr: "OBitOr", ast.BitXor: "OBitXor", ast.Div: "ODiv"}
@@ -84,6 +87,16 @@ def expr(e):
     if isinstance(e, ast.Name):
         return "(EName %s)" % cstr(e.id)
     if isinstance(e, ast.Attribute):
+        # --- BEGIN pl15: TRUSTED MAPPING for nxslib/thread.py -------------------------------------------
+        # `threading.Event` -> the class SimEvent, `threading.Thread` -> the class SimThread of
+        # tools/harness/prelude_py.py (translated like the rest of the program; under CPython the
+        # correspondence group rebinds `nxslib.thread.threading` to a namespace holding the very same
+        # classes).  Any other attribute of the module `threading` is refused (fail-closed).
+        if isinstance(e.value, ast.Name) and e.value.id == "threading":
+            if e.attr in THREADING_STUBS:
+                return "(EName %s)" % cstr(THREADING_STUBS[e.attr])
+            raise Unsupported("threading." + e.attr)
+        # --- END pl15 ----------------------------------------------------------------------------------
         return "(EAttr %s %s)" % (expr(e.value), cstr(e.attr))
     if isinstance(e, ast.Starred):
         return "(EStar %s)" % expr(e.value)
@@ -245,6 +258,102 @@ def is_trivial_super_init(e):
     return True
 
 
+# ---------------------------------------------------------------- pl14: for-loop with write-back (begin)
+# TRUSTED MAPPING.  `for x in <path>: body` is translated to PyLite's `SForWB x <path> body` (after every
+# iteration the final value of x is written back to <path>[k]) instead of the plain `SFor` exactly when the
+# body mutates the object bound to x (PyLite's values are trees: without the write-back the mutation would be
+# lost, in Python the loop variable IS the element).  Syntactic conditions, all checked here:
+#   1. the target is a plain name x and the iterable is an l-value path rooted at a name: names, attribute
+#      chains, subscripts whose index is a name / constant / attribute chain (its evaluation has no effects);
+#   2. the body mutates through x: a method call whose receiver is a path rooted at x (x.m(..), x.a.m(..),
+#      x[i].m(..)), a store / augmented store to an attribute or item of such a path, or setattr(x, ..);
+#   3. the body never rebinds x (no assignment, augmented assignment, for / with / except target, del,
+#      walrus, nested function, comprehension variable of that name);
+#   4. the body binds none of the names the iterable mentions and does not mention the root name of the
+#      iterable at all (so the iterated list cannot change under the loop, and nothing reads the stale
+#      copy of the element through the path while x holds the fresh one).
+# A loop that satisfies 2 but not 1, 3, 4 is refused (fail-closed) instead of being translated to `SFor`.
+FORWB_SEEN = []
+
+
+def path_root(e):
+    """root name of an l-value path, or None if e is not one"""
+    if isinstance(e, ast.Name):
+        return e.id
+    if isinstance(e, ast.Attribute):
+        return path_root(e.value)
+    if isinstance(e, ast.Subscript) and not isinstance(e.slice, (ast.Slice, ast.Tuple)):
+        i = e.slice
+        ok = (isinstance(i, ast.Name) or (isinstance(i, ast.Constant) and isinstance(i.value, int))
+              or (isinstance(i, ast.Attribute) and path_root(i) is not None and not has_subscript(i)))
+        return path_root(e.value) if ok else None
+    return None
+
+
+def has_subscript(e):
+    return any(isinstance(n, ast.Subscript) for n in ast.walk(e))
+
+
+def mutates_through(body, x):
+    for b in body:
+        for n in ast.walk(b):
+            if isinstance(n, ast.Call):
+                f = n.func
+                if isinstance(f, ast.Attribute) and path_root(f.value) == x:
+                    return True
+                if isinstance(f, ast.Name) and f.id == "setattr" and n.args and path_root(n.args[0]) == x:
+                    return True
+            tgts = []
+            if isinstance(n, ast.Assign):
+                tgts = n.targets
+            elif isinstance(n, (ast.AugAssign, ast.AnnAssign)):
+                tgts = [n.target]
+            for t in tgts:
+                if isinstance(t, (ast.Attribute, ast.Subscript)) and path_root(t) == x:
+                    return True
+    return False
+
+
+def bound_names(body):
+    out = set()
+    for b in body:
+        for n in ast.walk(b):
+            if isinstance(n, ast.Name) and isinstance(n.ctx, (ast.Store, ast.Del)):
+                out.add(n.id)
+            elif isinstance(n, ast.ExceptHandler) and n.name:
+                out.add(n.name)
+            elif isinstance(n, (ast.FunctionDef, ast.Lambda, ast.ClassDef, ast.AsyncFunctionDef, ast.Global, ast.Nonlocal)):
+                out.add("$scope")
+    return out
+
+
+def forwb_pattern(s):
+    """True: translate to SForWB; False: plain SFor; raises Unsupported for a mutating loop outside the pattern."""
+    if not isinstance(s.target, ast.Name):
+        xs = [t.id for t in ast.walk(s.target) if isinstance(t, ast.Name)]
+        if any(mutates_through(s.body, x) for x in xs):
+            raise Unsupported("for loop mutating an element through a tuple target")
+        return False
+    x = s.target.id
+    if not mutates_through(s.body, x):
+        return False
+    root = path_root(s.iter)
+    if root is None:
+        raise Unsupported("for loop mutating its variable over an iterable that is not an l-value path")
+    bound = bound_names(s.body)
+    if x in bound or "$scope" in bound:
+        raise Unsupported("for loop mutating and rebinding its variable")
+    it_names = {n.id for n in ast.walk(s.iter) if isinstance(n, ast.Name)}
+    if bound & it_names:
+        raise Unsupported("for loop with write-back: the body binds a name of the iterable")
+    if any(isinstance(n, ast.Name) and n.id == root for b in s.body for n in ast.walk(b)):
+        raise Unsupported("for loop with write-back: the body mentions the root of the iterable")
+    if x in it_names:
+        raise Unsupported("for loop with write-back: the variable occurs in the iterable")
+    return True
+# ---------------------------------------------------------------- pl14: for-loop with write-back (end)
+
+
 def stmt(s):
     if is_docstring(s):
         return None
@@ -283,6 +392,9 @@ def stmt(s):
     if isinstance(s, ast.For):
         if s.orelse:
             raise Unsupported("for-else")
+        if forwb_pattern(s):
+            FORWB_SEEN.append(ast.unparse(s).split("\n")[0])
+            return "(SForWB %s %s %s)" % (cstr(s.target.id), expr(s.iter), stmts(s.body))
         return "(SFor %s %s %s)" % (target(s.target), expr(s.iter), stmts(s.body))
     if isinstance(s, ast.Return):
         return "(SReturn %s)" % oexpr(s.value)
@@ -530,14 +642,22 @@ ONLY = {"comm.py": {"CommHandler": [
     # the description phase of the handshake (the frame queues and the link are scripted stubs)
     "_devinfo_get", "_drop_all", "_drop_all_frames", "_get_stream_frame",
     # connect / disconnect (the receive thread is a recording stub)
-    "_start", "_stop", "connect", "disconnect"]},
+    "_start", "_stop", "connect", "disconnect",
+    # pl14: the receive thread body (one call = one reassembly step + routing; the two queues are the
+    # ScriptQueue stub) and the stream path (next stream frame -> Parser.frame_stream_decode)
+    "_recv_thread", "stream_data"]},
     "nxscope.py": {"NxscopeHandler": [
         "_stream_start", "_stream_stop", "_reset_stats", "dev", "connect", "disconnect", "dev_channel_get",
         "stream_start", "stream_stop", "channels_default_cfg", "ch_enable", "ch_disable", "ch_disable_all",
-        "ch_divider", "channels_write"]}}
+        "ch_divider", "channels_write",
+        # pl14: the body of the stream thread (fan-out of the decoded samples to the subscriber queues, which are
+        # the SubQueue stub of the prelude; `for que in self._sub_q[chan]: que.put(..)` is an SForWB loop)
+        "_stream_thread"]}}
 
 MODULES = ["proto/iframe.py", "proto/serialframe.py", "dev.py", "proto/iparse.py", "proto/parse.py",
-           "proto/iparserecv.py", "proto/parserecv.py", "intf/iintf.py", "comm.py", "nxscope.py", "$prelude"]
+           "proto/iparserecv.py", "proto/parserecv.py", "intf/iintf.py", "comm.py", "nxscope.py",
+           "thread.py",      # pl15: ThreadCommon, whole class (threading.Event/Thread -> SimEvent/SimThread, see expr())
+           "$prelude"]
 
 
 def crc_table():
